@@ -76,6 +76,41 @@ def extra(chk, thorough):
                     flat = [x for st in out for x in st]
                     if not any(x.startswith("E:2:R:") for x in flat) or nl != 0 or any(x.endswith(":NONE") for x in flat):
                         bad = bad or (kind, how, point, [str(e) for e in pre], flat[-6:], nl)
+    # two responses inside ONE read chunk: (a) the responses of two outstanding requests for the same command - each
+    # request gets one; (b) a duplicated response - the duplicate is discarded and a follow-up request gets its own
+    bad2 = None
+    n2 = 0
+    for kind in ("nb1", "nb2", "b1"):
+        for pre in ([], [("issue", 9, "nb1b")]):
+            for variant in ("two-requests", "duplicate"):
+                if variant == "two-requests" and kind == "b1":
+                    continue       # two blocking requests are never outstanding together
+                evs = list(pre) + [("issue", 1, kind)] + ([("issue", 2, kind)] if variant == "two-requests" else [])
+                evs += [("ack", -1)] * 6
+                evs += [("rsp2", kind, kind)]
+                if variant == "duplicate":
+                    evs += [("issue", 2, kind)] + [("ack", -1)] * 3 + [("rsp", kind)]
+                evs += [("tick", 6000)]
+                r = A.Runner()
+                try:
+                    out = []
+                    for e in evs:
+                        if e == ("ack", -1):
+                            e = ("ack", r.proto._pack_seq)
+                        out.append(r.step(e))
+                    nl = r.listeners()
+                finally:
+                    r.close()
+                n2 += 1
+                chk.evaluations += 1
+                flat = [x for st in out for x in st]
+                if not (any(x.startswith("E:1:R:") for x in flat) and any(x.startswith("E:2:R:") for x in flat)) or nl != 0:
+                    bad2 = bad2 or (kind, variant, [str(e) for e in pre], [x for x in flat if x.startswith("E:")], nl)
+    chk.oblige("monitor:two-responses-in-one-read-chunk(%d scenarios)" % n2, bad2 is None, json.dumps(bad2)[:300] if bad2 else "")
+    if bad2:
+        chk.violation("two responses in one read chunk (%s, %s): a request did not get its response or a listener stayed "
+                      "registered (%d left): endings %s" % (bad2[0], bad2[1], bad2[4], bad2[3]), {"case": bad2},
+                      key="samechunk:%s:%s" % (bad2[0], bad2[1]))
     chk.oblige("monitor:follow-up-request-gets-its-own-response(%d cancellation/timeout points)" % n, bad is None, json.dumps(bad)[:300] if bad else "")
     if bad:
         chk.violation("after request 1 (%s) ended by %s at point %d, the next request for the same command did not get its response "
